@@ -2,7 +2,7 @@ SPECIFICATION TSpec
 CONSTANTS
   Cases = {"low", "UP", "Mixed"}
   Quotes = {"none", "dq", "bt", "br"}
-  Positions = {"from", "target", "target_column", "alias_def", "next_stmt_from", "next_stmt_colref", "collist", "qualifier", "next_stmt_colref_after_rename"}
+  Positions = {"from", "target", "target_column", "alias_def", "next_stmt_from", "next_stmt_colref", "collist", "qualifier", "next_stmt_colref_after_rename", "table_qualifier"}
   Known = {}
   Emit = FALSE
   MaxParts = 3
